@@ -1304,6 +1304,11 @@ def ev_hkdf_expand(op, a):
     if df is None:
         return [("hmac", "PANIC")]
     ol = df[1]
+    if len(prk) < ol:
+        # outside the domain RFC 5869 2.3 defines ("PRK  a pseudorandom key of at least HashLen octets"; the crate documents the
+        # same for `hkdf_expand`): the Spec must have no value there.  (The libraries — OpenSSL's HKDF, an HMAC loop — do not
+        # check the PRK length and would answer with bytes: they are not asked.)
+        return [("python-ref(RFC 5869 2.3: PRK of at least HashLen octets)", "PANIC")]
     if L > 255 * ol:
         return [("python-ref(RFC 5869 2.3: L <= 255*HashLen)", "PANIC")]
     label = hmac_lib(name, b"", b"")[1]
